@@ -34,7 +34,7 @@ def hkind(model, fn, code, sp, pv, kpost):
 def to_coq(case, obs):
     import epydemic as ep
     model = case['model']
-    if model not in IN_COQ or obs.get('skipped'):
+    if model not in IN_COQ or obs.get('skipped') or case.get('second'):
         return None
     sp = compart.spec(model)
     pv = case['pv']
@@ -131,7 +131,7 @@ def to_coq_any(case, obs):
 
 def to_coq_sivr(case, obs):
     import epydemic as ep
-    if obs.get('skipped') or case.get('seq'):
+    if obs.get('skipped') or case.get('seq') or case.get('second'):
         return None
     sp = compart.spec('SIvR')
     pv = case['pv']
